@@ -27,6 +27,20 @@ def main():
     tm.start()
     server = spawn_server(('127.0.0.1', 0))
     try:
+        # context ids are arbitrary picklable keys: falsy ones (0, '', False) are ids like any other
+        for k, cid in enumerate((0, '', 'ctx', False)):
+            c2 = RemoteContext(cid, host=server.addr, target=T.add, args=(0,), kwargs={'b': 100 * (k + 1)})
+            try:
+                w = PersistentRemoteWorker(None, host=server.addr, context=cid)
+                w.enqueue(1)
+                v = w.next_result(timeout=5)
+                obs[f'id {cid!r}'] = v
+                if v != 100 * (k + 1) + 1:
+                    viol.append(f'worker created with context id {cid!r} returned {v!r} for input 1 instead of {100 * (k + 1) + 1} (the context\'s target add with its default b={100 * (k + 1)})')
+            except Exception as e:     # noqa
+                viol.append(f'worker created with context id {cid!r}: {type(e).__name__}: {e}')
+            finally:
+                c2.wait()
         ctx = RemoteContext(1, host=server.addr, target=T.add, args=(0,), kwargs={'b': 10})
         ws = [PersistentRemoteWorker(None, host=server.addr, context=1) for _ in range(3)]
         vals = []
